@@ -2,7 +2,7 @@
    "tree = maximal zero runs of the bitmap" (+ cache entry is a tree entry) is preserved by the block-level
    operations; allocation only hands out blocks that were free. *)
 Require Import ZArith List Bool Lia Sorted.
-Require Import IW.Lib.CInt IW.Gen.Facts IW.FS.Bits IW.FS.Bits_proofs IW.FS.Fsm. Import ListNotations.
+Require Import IW.Lib.CInt IW.Gen.Facts IW.FS.Bits IW.FS.Bits_proofs IW.FS.Fsm IW.FS.Fsm_hdr_proofs. Import ListNotations.
 Local Open Scope Z_scope. Local Open Scope bool_scope.
 Ltac Zify.zify_post_hook ::= Z.div_mod_to_equations.
 
@@ -154,7 +154,8 @@ Qed.
 Definition frame (s s' : fsm) : Prop :=
   bm s' = bm s /\ bmoff s' = bmoff s /\ bmlen s' = bmlen s /\ hdrlen s' = hdrlen s /\ bpow s' = bpow s /\
   aunit s' = aunit s /\ fsize s' = fsize s /\ crzsum s' = crzsum s /\ crznum s' = crznum s /\
-  p_crzsum s' = p_crzsum s /\ p_crznum s' = p_crznum s /\ strict s' = strict s /\ vr s' = vr s.
+  p_crzsum s' = p_crzsum s /\ p_crznum s' = p_crznum s /\ strict s' = strict s /\ vr s' = vr s /\
+  p_bmoff s' = p_bmoff s /\ p_bmlen s' = p_bmlen s.
 Lemma frame_refl : forall s, frame s s.
 Proof. intros s. unfold frame. repeat split. Qed.
 Lemma frame_trans : forall a b c, frame a b -> frame b c -> frame a c.
@@ -1067,12 +1068,15 @@ Proof.
   split; [|exact C]. pose proof Hg as (Hi & _). apply (good_cfg s); [exact Hg|apply (Inv_ext s); try reflexivity; exact Hi|exact C].
 Qed.
 
-Theorem reopen_good : forall s st mm, len_z (bm s) = nbits s -> nbits s <= FSM_BKEY_MAX -> WF s -> fx_lfbk (vr s) = true ->
+(* [hdr_current s]: the header of the closed file names the bitmap area the handle used (Fsm_hdr_proofs.v: always so) *)
+Theorem reopen_good : forall s st mm, hdr_current s = true ->
+  len_z (bm s) = nbits s -> nbits s <= FSM_BKEY_MAX -> WF s -> fx_lfbk (vr s) = true ->
   Good (reopen s st mm).
 Proof.
-  intros s st mm Hlen Hu32 Hwf Hfx. unfold reopen.
+  intros s st mm Hc Hlen Hu32 Hwf Hfx. unfold reopen, disk_bm. rewrite Hc. apply hs_iff in Hc. destruct Hc as [Ec1 Ec2].
+  rewrite Ec1, Ec2.
   set (s0 := mkFsm (bm s) [] 0 0 (bmoff s) (bmlen s) (hdrlen s) (bpow s) (aunit s) (fsize s) (p_crzsum s) (p_crznum s)
-                   (p_crzsum s) (p_crznum s) st (mkVariant (fx_lfbk (vr s)) (fx_strict (vr s)) (fx_sync (vr s)) (fx_short (vr s)) mm)).
+                   (p_crzsum s) (p_crznum s) (bmoff s) (bmlen s) st (mkVariant (fx_lfbk (vr s)) (fx_strict (vr s)) (fx_sync (vr s)) (fx_short (vr s)) mm)).
   destruct (load_fsm_spec s0 Hlen Hu32) as (F & S & M & L).
   pose proof (frame_same_cfg _ _ F) as (C1 & C2 & C3 & C4 & _). destruct F as (B1 & _).
   split; [|split].
@@ -1099,9 +1103,9 @@ Definition client_ok (s : fsm) (o : op) : Prop :=
   | OCloseReopen notrim _ _ => notrim = true
   end.
 
-Theorem step_good : forall s o, Good s -> client_ok s o -> Good (state_of (step s o)).
+Theorem step_good : forall s o, Good s -> hdr_current s = true -> client_ok s o -> Good (state_of (step s o)).
 Proof.
-  intros s o Hg Hc. pose proof Hg as (Hi & Hwf & Hfx). destruct o as [len hint opts ovr|nlen addr olen opts ovr|addr len|tr| |nt st mm]; simpl in Hc.
+  intros s o Hg Hh Hc. pose proof Hg as (Hi & Hwf & Hfx). destruct o as [len hint opts ovr|nlen addr olen opts ovr|addr len|tr| |nt st mm]; simpl in Hc.
   - destruct Hc as [Hne Hlen]. unfold step.
     pose proof (allocate_noext s len hint opts ovr Hi Hwf Hlen Hne) as H.
     destruct (allocate s len hint opts ovr) as [[[rc s'] a] l]. simpl.
@@ -1114,7 +1118,7 @@ Proof.
   - simpl. apply write_meta_good. exact Hg.
   - subst nt. unfold step, close.
     assert (Hs1 : forall s1, (s1 = s \/ s1 = write_meta s) -> Good (reopen s1 st mm)).
-    { intros s1 [->| ->]; (apply reopen_good; [apply (inv_len s Hi)|apply (inv_u32 s Hi)|
+    { intros s1 [->| ->]; (apply reopen_good; [first [exact Hh|apply hs_iff; apply hs_write_meta]|apply (inv_len s Hi)|apply (inv_u32 s Hi)|
         destruct Hwf as [Hb Hj]; constructor; assumption|exact Hfx]). }
     destruct (tree s); simpl; apply Hs1; [left|right]; reflexivity.
 Qed.
@@ -1123,11 +1127,18 @@ Inductive ok_run : fsm -> list op -> Prop :=
 | ok_nil : forall s, ok_run s []
 | ok_cons : forall s o ops, client_ok s o -> ok_run (state_of (step s o)) ops -> ok_run s (o :: ops).
 
-Theorem run_good : forall ops s, Good s -> ok_run s ops -> Good (run s ops).
+Lemma client_ok_no_clear : forall s o, client_ok s o -> forall tr, o = OClear tr -> fst (clear s tr) = 0.
+Proof. intros s o Hc tr ->. simpl in Hc. contradiction. Qed.
+
+Theorem run_good_hdr : forall ops s, Good s -> hdr_current s = true -> ok_run s ops ->
+  Good (run s ops) /\ hdr_current (run s ops) = true.
 Proof.
-  induction ops as [|o ops IH]; intros s Hg Hok; [exact Hg|].
-  inversion Hok; subst. unfold run. simpl. apply IH; [apply step_good; assumption|assumption].
+  induction ops as [|o ops IH]; intros s Hg Hh Hok; [split; assumption|].
+  inversion Hok; subst. unfold run. simpl. apply IH; [apply step_good; assumption| |assumption].
+  apply hs_iff. apply hs_step; [apply hs_iff; exact Hh|eapply client_ok_no_clear; eassumption].
 Qed.
+Theorem run_good : forall ops s, Good s -> hdr_current s = true -> ok_run s ops -> Good (run s ops).
+Proof. intros ops s Hg Hh Hok. apply (run_good_hdr ops s Hg Hh Hok). Qed.
 
 (* ================================================================ the code as it is: counterexamples *)
 Lemma live_range_dec : forall s a m, 0 <= a -> 0 < m -> a + m <= nbits s -> len_z (bm s) = nbits s ->
@@ -1240,23 +1251,25 @@ Qed.
 (* a state satisfying all hypotheses of the theorems: a freshly created file, closed and reopened *)
 Lemma fresh_reopened_good : Good (reopen (fresh v_fixed false) false false).
 Proof.
-  apply reopen_good; [vm_compute; reflexivity|dec_goal| |reflexivity].
+  apply reopen_good; [vm_compute; reflexivity|vm_compute; reflexivity|dec_goal| |reflexivity].
   constructor; [dec_goal|]. exists 12. split; [reflexivity|]. split; dec_goal.
 Qed.
 
 (* ================================================================ corollaries exported to Properties_C10/C11 *)
-Theorem tree_is_runs_partial : forall ops s, Good s -> ok_run s ops ->
+Theorem tree_is_runs_partial : forall ops s, Good s -> hdr_current s = true -> ok_run s ops ->
   forall o n, In (n, o) (tree (run s ops)) <-> is_run (bm (run s ops)) o n.
-Proof. intros ops s Hg Hok. destruct (run_good ops s Hg Hok) as (Hi & _). apply (inv_runs _ Hi). Qed.
+Proof. intros ops s Hg Hh Hok. destruct (run_good ops s Hg Hh Hok) as (Hi & _). apply (inv_runs _ Hi). Qed.
 
-Theorem reopen_same : forall s st mm, len_z (bm s) = nbits s -> nbits s <= FSM_BKEY_MAX -> WF s -> fx_lfbk (vr s) = true ->
+Theorem reopen_same : forall s st mm, hdr_current s = true ->
+  len_z (bm s) = nbits s -> nbits s <= FSM_BKEY_MAX -> WF s -> fx_lfbk (vr s) = true ->
   Good (reopen s st mm) /\ bm (reopen s st mm) = bm s /\ bmoff (reopen s st mm) = bmoff s /\
   bmlen (reopen s st mm) = bmlen s /\ hdrlen (reopen s st mm) = hdrlen s /\ bpow (reopen s st mm) = bpow s /\
   (forall o n, In (n, o) (tree (reopen s st mm)) <-> is_run (bm s) o n).
 Proof.
-  intros s st mm Hlen Hu32 Hwf Hfx. split; [apply reopen_good; assumption|]. unfold reopen.
+  intros s st mm Hc Hlen Hu32 Hwf Hfx. split; [apply reopen_good; assumption|]. unfold reopen, disk_bm. rewrite Hc.
+  apply hs_iff in Hc. destruct Hc as [Ec1 Ec2]. rewrite Ec1, Ec2.
   set (s0 := mkFsm (bm s) [] 0 0 (bmoff s) (bmlen s) (hdrlen s) (bpow s) (aunit s) (fsize s) (p_crzsum s) (p_crznum s)
-                   (p_crzsum s) (p_crznum s) st (mkVariant (fx_lfbk (vr s)) (fx_strict (vr s)) (fx_sync (vr s)) (fx_short (vr s)) mm)).
+                   (p_crzsum s) (p_crznum s) (bmoff s) (bmlen s) st (mkVariant (fx_lfbk (vr s)) (fx_strict (vr s)) (fx_sync (vr s)) (fx_short (vr s)) mm)).
   destruct (load_fsm_spec s0 Hlen Hu32) as (F & _ & M & _). destruct F as (B1 & B2 & B3 & B4 & B5 & _).
   split; [exact B1|]. split; [exact B2|]. split; [exact B3|]. split; [exact B4|]. split; [exact B5|]. exact M.
 Qed.
@@ -1679,7 +1692,7 @@ Lemma scan_witness : Good scan_witness_state /\ tree scan_witness_state = [(64, 
   (let '(rc, _, off, olen) := blk_allocate_aligned scan_witness_state 64 U64MAX in (rc, off, olen)) = (0, 512, 64).
 Proof.
   split; [|split; vm_compute; reflexivity].
-  apply run_good; [exact fresh_reopened_good|]. apply ok_runb_sound. vm_compute. reflexivity.
+  apply run_good; [exact fresh_reopened_good|apply hs_iff; apply hs_reopen|]. apply ok_runb_sound. vm_compute. reflexivity.
 Qed.
 
 (* ---------------------------------------------------------------- IWFSM_SOLID_ALLOCATED_SPACE
